@@ -10,10 +10,15 @@
    (split point 0 or >= n).  rref = Gauss-Jordan; every echelonisation route of the library returns
    it (C02: [rref_canonical]).
 
-   Abstractions (exactly): the Four-Russians base routine mzd_trtri_upper_russian
-   (triangular_russian.c:384) is instantiated with the substitution model [trtri_upper_simple];
-   [C05_trtri_generic] proves the recursion for ANY base routine and ANY pair of solvers meeting
-   their specifications.  mzd_trtri_upper reads the stored diagonal (through
+   The Four-Russians base routine mzd_trtri_upper_russian (triangular_russian.c:377-470) is modelled faithfully in
+   Alg/TrtriRussian.v ([trtri_upper_russian k A]: _mzd_trtri_upper_submatrix, _mzd_ple_to_e, mzd_make_table_trtri with
+   the L index array, _mzd_process_rows_ple_4 with the running bits ^= B[x], the tail loop with k clipped and
+   mzd_process_rows incl. its k == 1 paired path; tables threaded stale through the loops; compared with the library
+   on every run of the C05 check, Tier B family "trtri-russian") and PROVEN bit-identical with the substitution model
+   for every admissible table parameter 1 <= k <= 16 (4k <= 64; the automatic choice stays in 1..7):
+   [C05_trtri_russian], hence [C05_trtri_rec_real_base]: mzd_trtri_upper = the recursion over the library's own
+   base routine, inverts.  [C05_trtri_generic] proves the recursion for ANY base routine and ANY pair of solvers
+   meeting their specifications.  mzd_trtri_upper reads the stored diagonal (through
    _mzd_trsm_upper_right, see C04) and never writes diagonal or lower triangle: hypotheses
    [diag_ones] and conclusion "lower triangle and diagonal of V are those of U".
 
@@ -22,7 +27,8 @@
    for rank 0. *)
 From Coq Require Import List NArith Arith Lia Bool.
 From M4 Require Import Base.Bits Lin.Mat Lin.MatAlg Lin.Ops Lin.Spec Lin.Tri Alg.Gauss Alg.TRSM
-                       Alg.TRSMProofs Alg.TRSMRec Alg.TRSMRecProofs Alg.InvProofs.
+                       Alg.TRSMProofs Alg.TRSMRec Alg.TRSMRecProofs Alg.InvProofs
+                       Alg.TrtriRussian Alg.TrtriRussianProofs4 Alg.TrtriRussianClosed.
 Import ListNotations.
 Local Open Scope nat_scope.
 
@@ -152,3 +158,35 @@ Example C05_run_trtri :
   | None => False
   end.
 Proof. vm_compute. split; reflexivity. Qed.
+
+(** * the Four-Russians base routine mzd_trtri_upper_russian (faithful model) = the substitution model, bit for bit,
+    for every admissible table parameter; garbage below the diagonal is allowed and left untouched *)
+Theorem C05_trtri_russian : forall k n U, 1 <= k <= 16 ->
+  wf U -> nr U = n -> nc U = n -> diag_ones n U ->
+  trtri_upper_russian k U = trtri_upper_simple U.
+Proof. exact C05_trtri_russian_simple. Qed.
+Print Assumptions C05_trtri_russian.
+
+Theorem C05_trtri_russian_inverts : forall k n U, 1 <= k <= 16 ->
+  wf U -> nr U = n -> nc U = n -> diag_ones n U -> trtri_ok n U (trtri_upper_russian k U).
+Proof. exact C05_trtri_russian_ok. Qed.
+Print Assumptions C05_trtri_russian_inverts.
+
+(** mzd_trtri_upper with the library's own base routine and the faithful solvers: same result as the recursion over
+    the substitution model, and the specification of the inverse *)
+Theorem C05_trtri_rec_real_base : forall c kt kk U, 1 <= kt <= 16 -> wf U -> nr U = nc U -> diag_ones (nr U) U ->
+  trtri_upper_rec_fr c kt kk U = trtri_upper_rec_f c kk U.
+Proof. exact trtri_upper_rec_fr_eq. Qed.
+Print Assumptions C05_trtri_rec_real_base.
+
+Theorem C05_trtri_rec_real_base_inverts : forall c kt kk U V, 1 <= kt <= 16 -> 1 <= kk ->
+  wf U -> nr U = nc U -> diag_ones (nr U) U ->
+  trtri_upper_rec_fr c kt kk U = Some V -> trtri_ok (nr U) U V.
+Proof. exact trtri_upper_rec_fr_ok. Qed.
+Print Assumptions C05_trtri_rec_real_base_inverts.
+
+Example C05_trtri_russian_nonvacuous : exists k n U, 1 <= k <= 16 /\ wf U /\ nr U = n /\ nc U = n /\ diag_ones n U /\ 4 * k <= n.
+Proof.
+  exists 2, 9, U9. destruct C05_trtri_russian_hyps as (H1 & H2 & H3 & H4 & _).
+  split; [lia|]. split; [exact H1|]. split; [exact H2|]. split; [exact H3|]. split; [exact H4|lia].
+Qed.
